@@ -51,6 +51,11 @@ package el
 //@ implements Helper
 //@ terminates
 //@ ghost at return: ElLastInput = s
+// cbFailed: (ghost, local) some call of the replacement callback reported an error
+//@ ghost local cbFailed bool
+//@ ghost after call @f: cbFailed = cbFailed || _result1 != nil
+//@ ensures [callback-error-surfaces] implies(cbFailed, result1 != nil)
+//@ loop 1 invariant [no-callback-error-so-far] !cbFailed
 //@ loop 1 decreases maxReplaceRounds - round
 //@ loop 1 invariant [rounds-bounded] 0 <= round && round <= maxReplaceRounds
 //@ loop 1 invariant [untouched] implies(RFirst(e.Regexp, s) == "", result == s)
